@@ -103,22 +103,24 @@ def showColr : Colr → String
 def showSizePos : SizePos → String
   | .normal => "normal" | .small => "small" | .super => "superscript" | .sub => "subscript"
 
-/-- First field in which the terminal differs from what the logical pen asks for. -/
+/-- Every field in which the terminal differs from what the logical pen asks for (joined by `; also `): a verdict names ALL
+    of them, so that a difference a known finding explains cannot stand in for one it does not explain. -/
 def diffAttrs (have_ want : Attrs) : String :=
-  if have_.fg ≠ want.fg then s!"fg: terminal has {showColr have_.fg}, logical pen wants {showColr want.fg}"
-  else if have_.bg ≠ want.bg then s!"bg: terminal has {showColr have_.bg}, logical pen wants {showColr want.bg}"
-  else if have_.bold ≠ want.bold then s!"bold: terminal has {have_.bold}, logical pen wants {want.bold}"
-  else if have_.under ≠ want.under then s!"under: terminal has {have_.under}, logical pen wants {want.under}"
-  else if have_.faint ≠ want.faint then s!"faint: terminal has {have_.faint}, no pen attribute asks for it"
-  else if have_.italic ≠ want.italic then s!"italic: terminal has {have_.italic}, logical pen wants {want.italic}"
-  else if have_.reverse ≠ want.reverse then s!"reverse: terminal has {have_.reverse}, logical pen wants {want.reverse}"
-  else if have_.strike ≠ want.strike then s!"strike: terminal has {have_.strike}, logical pen wants {want.strike}"
-  else if have_.font ≠ want.font then s!"altfont: terminal has font {have_.font}, logical pen wants {want.font}"
-  else if have_.blink ≠ want.blink then s!"blink: terminal has {have_.blink}, logical pen wants {want.blink}"
-  else if have_.sizepos ≠ want.sizepos then
-    s!"sizepos: terminal has {showSizePos have_.sizepos}, logical pen wants {showSizePos want.sizepos}"
-  else if have_.junk ≠ want.junk then s!"{have_.junk} SGR parameter(s) not understood by the reference interpreter"
-  else ""
+  let ds : List String :=
+    (if have_.fg ≠ want.fg then [s!"fg: terminal has {showColr have_.fg}, logical pen wants {showColr want.fg}"] else []) ++
+    (if have_.bg ≠ want.bg then [s!"bg: terminal has {showColr have_.bg}, logical pen wants {showColr want.bg}"] else []) ++
+    (if have_.bold ≠ want.bold then [s!"bold: terminal has {have_.bold}, logical pen wants {want.bold}"] else []) ++
+    (if have_.under ≠ want.under then [s!"under: terminal has {have_.under}, logical pen wants {want.under}"] else []) ++
+    (if have_.faint ≠ want.faint then [s!"faint: terminal has {have_.faint}, no pen attribute asks for it"] else []) ++
+    (if have_.italic ≠ want.italic then [s!"italic: terminal has {have_.italic}, logical pen wants {want.italic}"] else []) ++
+    (if have_.reverse ≠ want.reverse then [s!"reverse: terminal has {have_.reverse}, logical pen wants {want.reverse}"] else []) ++
+    (if have_.strike ≠ want.strike then [s!"strike: terminal has {have_.strike}, logical pen wants {want.strike}"] else []) ++
+    (if have_.font ≠ want.font then [s!"altfont: terminal has font {have_.font}, logical pen wants {want.font}"] else []) ++
+    (if have_.blink ≠ want.blink then [s!"blink: terminal has {have_.blink}, logical pen wants {want.blink}"] else []) ++
+    (if have_.sizepos ≠ want.sizepos then
+      [s!"sizepos: terminal has {showSizePos have_.sizepos}, logical pen wants {showSizePos want.sizepos}"] else []) ++
+    (if have_.junk ≠ want.junk then [s!"{have_.junk} SGR parameter(s) not understood by the reference interpreter"] else [])
+  "; also ".intercalate ds
 
 /-- "change-pen overlays only the attributes present in its argument": first rendering attribute, absent from the argument
     `p` of a `chpen`, that the bytes of the request changed on the terminal. -/
